@@ -38,29 +38,34 @@ Record lstate := mkl {
   lsubs : list bytes; lbuf : bytes; lconnected : bool; lstopped : bool; lstop_after : option nat; lmsgs : nat;
   lk : nat;                       (* index of the current / last connection *)
   lpcs : lpc; linrun : bool;      (* linrun: tryconnect was called from run (else from __init__) *)
-  ltrace : list lev }.            (* newest first *)
+  ltrace : list lev;              (* newest first *)
+  lrx : bytes }.                  (* ghost: every byte received on the current connection (never read) *)
 
 Section Legacy.
 Variable ident secret : bytes.
 
 Definition ev (e : lev) (s : lstate) : lstate :=
   mkl (lconn s) (lrecv s) (lsend s) (lsubs s) (lbuf s) (lconnected s) (lstopped s) (lstop_after s) (lmsgs s) (lk s)
-      (lpcs s) (linrun s) (e :: ltrace s).
+      (lpcs s) (linrun s) (e :: ltrace s) (lrx s).
 Definition goto (p : lpc) (s : lstate) : lstate :=
   mkl (lconn s) (lrecv s) (lsend s) (lsubs s) (lbuf s) (lconnected s) (lstopped s) (lstop_after s) (lmsgs s) (lk s)
-      p (linrun s) (ltrace s).
+      p (linrun s) (ltrace s) (lrx s).
 Definition setbufl (b : bytes) (s : lstate) : lstate :=
   mkl (lconn s) (lrecv s) (lsend s) (lsubs s) b (lconnected s) (lstopped s) (lstop_after s) (lmsgs s) (lk s)
-      (lpcs s) (linrun s) (ltrace s).
+      (lpcs s) (linrun s) (ltrace s) (lrx s).
+(* unpacker.feed(d) *)
+Definition feedl (d : bytes) (s : lstate) : lstate :=
+  mkl (lconn s) (lrecv s) (lsend s) (lsubs s) (lbuf s ++ d) (lconnected s) (lstopped s) (lstop_after s) (lmsgs s) (lk s)
+      (lpcs s) (linrun s) (ltrace s) (lrx s ++ d).
 Definition setconnected (b : bool) (s : lstate) : lstate :=
   mkl (lconn s) (lrecv s) (lsend s) (lsubs s) (lbuf s) b (lstopped s) (lstop_after s) (lmsgs s) (lk s)
-      (lpcs s) (linrun s) (ltrace s).
+      (lpcs s) (linrun s) (ltrace s) (lrx s).
 (* pop an answer to sendall(): exhausted queue = success *)
 Definition pop_send (s : lstate) : bool * lstate :=
   match lsend s with
   | [] => (true, s)
   | b :: t => (b, mkl (lconn s) (lrecv s) t (lsubs s) (lbuf s) (lconnected s) (lstopped s) (lstop_after s) (lmsgs s) (lk s)
-                      (lpcs s) (linrun s) (ltrace s))
+                      (lpcs s) (linrun s) (ltrace s) (lrx s))
   end.
 (* a failed handshake attempt: log, sleep sleepwait, try again *)
 Definition retry (s : lstate) : lstate := goto PTry (ev LSleep s).
@@ -69,7 +74,7 @@ Definition deliver_msg (i c d : bytes) (s : lstate) : lstate :=
   let n := S (lmsgs s) in
   let st := match lstop_after s with Some m => Nat.leb m n | None => false end in
   mkl (lconn s) (lrecv s) (lsend s) (lsubs s) (lbuf s) (lconnected s) (lstopped s || st) (lstop_after s) n (lk s)
-      (lpcs s) (linrun s) (LMsg i c d :: ltrace s).
+      (lpcs s) (linrun s) (LMsg i c d :: ltrace s) (lrx s).
 
 (* run's "for opcode, data in self.unpacker": returns the state and how the loop ended
    (0 = drained, 1 = ProtocolException (a Disconnect), 2 = another exception escaped) *)
@@ -105,12 +110,12 @@ Definition lstep (s : lstate) : lstate :=
       | [] => goto PStop (ev LScriptEnd s)
       | ok :: rest =>
           let s1 := ev LAttempt (mkl rest (lrecv s) (lsend s) (lsubs s) (lbuf s) (lconnected s) (lstopped s) (lstop_after s)
-                                     (lmsgs s) (lk s) (lpcs s) (linrun s) (ltrace s)) in
+                                     (lmsgs s) (lk s) (lpcs s) (linrun s) (ltrace s) (lrx s)) in
           if ok then
             let k := S (lk s1) in
             goto PAuth (ev (LConnected k)
               (mkl (lconn s1) (lrecv s1) (lsend s1) (lsubs s1) [] true (lstopped s1) (lstop_after s1) (lmsgs s1) k
-                   (lpcs s1) (linrun s1) (ltrace s1)))          (* self.connected = True; self.unpacker.reset() *)
+                   (lpcs s1) (linrun s1) (ltrace s1) []))       (* self.connected = True; self.unpacker.reset() *)
           else retry s1      (* FeedException('Could not connect') or, with a stale connected flag, a socket error in do_auth *)
       end
   | PAuth =>
@@ -118,12 +123,12 @@ Definition lstep (s : lstate) : lstate :=
       | [] => goto PStop (ev LScriptEnd s)
       | r :: rest =>
           let s1 := mkl (lconn s) rest (lsend s) (lsubs s) (lbuf s) (lconnected s) (lstopped s) (lstop_after s) (lmsgs s) (lk s)
-                        (lpcs s) (linrun s) (ltrace s) in
+                        (lpcs s) (linrun s) (ltrace s) (lrx s) in
           match r with
           | RTimeout | RErr => retry s1                      (* FeedException / socket.error: caught by tryconnect *)
           | REof => retry s1                                  (* nothing fed: 'cannot assemble complete message' *)
           | RData d =>
-              let s2 := setbufl (lbuf s1 ++ d) s1 in
+              let s2 := feedl d s1 in
               match next limitP (lbuf s2) with
               | NeedMore => retry s2                          (* 'Expected OP_INFO but cannot assemble complete message' *)
               | Bad _ => retry s2                             (* ProtocolException is a Disconnect *)
@@ -137,8 +142,7 @@ Definition lstep (s : lstate) : lstate :=
                         let '(ok, s5) := pop_send s4 in
                         if ok then
                           let s6 := ev (LSentAuth (lk s5) rand) s5 in
-                          if linrun s6 then goto PAfterInner s6     (* back in run(): "while not self.stopped" *)
-                          else goto PAfterInner s6                  (* __init__ done; the harness calls run() *)
+                          goto PAfterInner s6          (* back in run() (or __init__ done and the application calls run()) *)
                         else retry (ev (LSendFailed (lk s5)) s5)    (* Disconnect while connecting *)
                     end
                   else retry s3                               (* 'Expected OP_INFO but got another opcode.' *)
@@ -165,13 +169,13 @@ Definition lstep (s : lstate) : lstate :=
       | [] => goto PStop (ev LScriptEnd s)
       | r :: rest =>
           let s1 := mkl (lconn s) rest (lsend s) (lsubs s) (lbuf s) (lconnected s) (lstopped s) (lstop_after s) (lmsgs s) (lk s)
-                        (lpcs s) (linrun s) (ltrace s) in
+                        (lpcs s) (linrun s) (ltrace s) (lrx s) in
           let drop := goto PAfterInner (setconnected false (ev (LDisconnected (lk s1)) s1)) in
           match r with
           | REof | RErr => drop
           | RTimeout => if lstopped s1 then goto PAfterInner s1 else s1
           | RData d =>
-              let s2 := setbufl (lbuf s1 ++ d) s1 in
+              let s2 := feedl d s1 in
               let '(s3, how) := run_frames (S (length (lbuf s2))) s2 in
               match how with
               | O => if lstopped s3 then goto PAfterInner s3 else s3
@@ -184,5 +188,5 @@ Definition lstep (s : lstate) : lstate :=
 Fixpoint lrun (fuel : nat) (s : lstate) : lstate :=
   match fuel with O => s | S f => match lpcs s with PStop => s | _ => lrun f (lstep s) end end.
 Definition linit (conn : list bool) (recv : list rres) (send : list bool) (subs : list bytes) (stop_after : option nat) : lstate :=
-  mkl conn recv send subs [] false false stop_after 0 0 PTry true [].
+  mkl conn recv send subs [] false false stop_after 0 0 PTry true [] [].
 End Legacy.
